@@ -1530,6 +1530,42 @@ Proof. vm_compute. reflexivity. Qed.
 
 (** * A whole call of a function-like macro *)
 
+(** [skip_blanks b = ""]: [b] is made of blanks and TABs only *)
+Lemma skip_blanks_app : forall b s, skip_blanks b = "" -> skip_blanks (b ++ s) = skip_blanks s.
+Proof.
+  induction b as [|a b IH]; intros s H; [reflexivity|].
+  cbn [skip_blanks] in H. cbn [append skip_blanks].
+  destruct (is_blank_or_tab a); [exact (IH s H)|discriminate].
+Qed.
+
+Lemma skip_blanks_paren : forall b c s,
+  skip_blanks b = "" -> is_blank_or_tab c = false -> skip_blanks (b ++ String c s) = String c s.
+Proof.
+  intros b c s Hb Hc. rewrite (skip_blanks_app b _ Hb). cbn [skip_blanks]. rewrite Hc. reflexivity.
+Qed.
+
+(** a hit of the call pattern: the name at a word boundary, blanks and TABs, the parenthesis,
+    the arguments *)
+Lemma rca_hit_blanks : forall f name ps tmpl prev s b s' args rest,
+  s = name ++ b ++ "(" ++ s' ->
+  boundary_before prev = true -> name <> "" -> skip_blanks b = "" ->
+  capture_args (String.length s) (List.length ps) s' = Some (args, rest) ->
+  replace_call_aux (S f) name ps tmpl prev s =
+  (expand_template (S (String.length tmpl)) tmpl ps args
+     ++ fst (replace_call_aux f name ps tmpl (Some ")"%char) rest), true).
+Proof.
+  intros f name ps tmpl prev s b s' args rest Hs Hb Hname Hbl Hcap.
+  assert (Hst : starts_with name s = true) by (rewrite Hs; apply starts_with_app).
+  assert (Hdrop : skip_blanks (string_drop (String.length name) s) = String "(" s').
+  { rewrite Hs, string_drop_app. apply (skip_blanks_paren b "(" s' Hbl). reflexivity. }
+  destruct s as [|a r]; [destruct name; [congruence|discriminate]|].
+  cbn [replace_call_aux]. rewrite Hb, Hst, Hdrop.
+  destruct name as [|n0 n']; [congruence|].
+  cbn [String.length Nat.eqb negb andb]. change (Ascii.eqb "(" "(") with true. cbv iota.
+  cbn [String.length] in Hcap. rewrite Hcap.
+  destruct (replace_call_aux f _ ps tmpl _ rest) as [t c]. reflexivity.
+Qed.
+
 Lemma rca_hit : forall f name ps tmpl prev s args rest,
   s <> "" -> boundary_before prev = true -> starts_with (name ++ "(") s = true ->
   name <> "" ->
@@ -1540,11 +1576,17 @@ Lemma rca_hit : forall f name ps tmpl prev s args rest,
      ++ fst (replace_call_aux f name ps tmpl (Some ")"%char) rest), true).
 Proof.
   intros f name ps tmpl prev s args rest Hs Hb Hst Hname Hcap.
-  destruct s as [|a r]; [congruence|].
-  cbn [replace_call_aux]. rewrite Hb, Hst.
-  destruct name as [|n0 n']; [congruence|].
-  cbn [String.length Nat.eqb negb andb]. cbn [String.length] in Hcap. rewrite Hcap.
-  destruct (replace_call_aux f _ ps tmpl _ rest) as [t c]. reflexivity.
+  apply (rca_hit_blanks f name ps tmpl prev s "" (string_drop (S (String.length name)) s));
+    try assumption; [|reflexivity].
+  clear Hcap Hb. revert s Hs Hst. induction name as [|n0 n' IH]; intros s Hs Hst; [congruence|].
+  destruct s as [|c s]; [discriminate|]. cbn [append starts_with] in Hst.
+  apply andb_true_iff in Hst. destruct Hst as [H1 H2]. apply Ascii.eqb_eq in H1. subst c.
+  cbn [append String.length string_drop]. f_equal.
+  destruct n' as [|n1 n''].
+  - cbn [append starts_with] in H2. destruct s as [|d s]; [discriminate|].
+    apply andb_true_iff in H2. destruct H2 as [H2 _]. apply Ascii.eqb_eq in H2. subst d.
+    reflexivity.
+  - apply IH; [discriminate| |exact H2]. destruct s; [discriminate|discriminate].
 Qed.
 
 Lemma rca_nil : forall f name ps tmpl prev, replace_call_aux f name ps tmpl prev "" = ("", false).
@@ -1577,10 +1619,104 @@ Proof.
 Qed.
 Print Assumptions replace_call_whole.
 
-(** a call is not recognised inside a longer identifier *)
+(** a call is not recognised inside a longer identifier; blanks between the name and the
+    parenthesis do not matter (the repaired defect: "F (5)" used to be left as it is) *)
 Example replace_call_inside_identifier :
-  replace_call "F" ["a"] "[$a]" "xF(1) F(2) F_(3) GF(4) F (5)" = ("xF(1) [2] F_(3) GF(4) F (5)", true).
+  replace_call "F" ["a"] "[$a]" "xF(1) F(2) F_(3) GF(4) F (5)" = ("xF(1) [2] F_(3) GF(4) [5]", true).
 Proof. vm_compute. reflexivity. Qed.
+
+(** * Blanks between the macro name and the parenthesis of a call *)
+
+(** the call [name blanks (a1,...,an)] is replaced like [name(a1,...,an)] *)
+Theorem replace_call_blank_before_paren : forall name ps tmpl args b,
+  wordy name -> Forall arg_ok args -> args <> [] -> List.length ps = List.length args ->
+  skip_blanks b = "" ->
+  replace_call name ps tmpl (name ++ b ++ "(" ++ String.concat "," args ++ ")")
+  = replace_call name ps tmpl (name ++ "(" ++ String.concat "," args ++ ")").
+Proof.
+  intros name ps tmpl args b Hw Hok Hargs Hlen Hb.
+  rewrite (replace_call_whole name ps tmpl args Hw Hok Hargs Hlen).
+  destruct Hw as [Hne _]. unfold replace_call.
+  rewrite (rca_hit_blanks _ name ps tmpl None _ b (String.concat "," args ++ ")" ++ "") args "").
+  - rewrite rca_nil. cbn [fst]. rewrite app_nil_r_s. reflexivity.
+  - rewrite app_nil_r_s. reflexivity.
+  - reflexivity.
+  - exact Hne.
+  - exact Hb.
+  - rewrite Hlen. apply capture_args_ok; [exact Hargs | exact Hok |].
+    intros a Ha. pose proof (length_concat_in "," a args Ha).
+    rewrite !length_app_s. cbn [String.length]. lia.
+Qed.
+Print Assumptions replace_call_blank_before_paren.
+
+Corollary replace_call_blank_before_paren_value : forall name ps tmpl args b,
+  wordy name -> Forall arg_ok args -> args <> [] -> List.length ps = List.length args ->
+  skip_blanks b = "" ->
+  replace_call name ps tmpl (name ++ b ++ "(" ++ String.concat "," args ++ ")")
+  = (expand_template (S (String.length tmpl)) tmpl ps args, true).
+Proof.
+  intros name ps tmpl args b Hw Hok Hargs Hlen Hb.
+  rewrite (replace_call_blank_before_paren name ps tmpl args b Hw Hok Hargs Hlen Hb).
+  apply replace_call_whole; assumption.
+Qed.
+Print Assumptions replace_call_blank_before_paren_value.
+
+(** a macro without parameters: blanks before the parenthesis and between the parentheses *)
+Lemma capture_args_0 : forall fuel b rest,
+  skip_blanks b = "" -> capture_args fuel 0 (b ++ ")" ++ rest) = Some ([], rest).
+Proof.
+  intros fuel b rest Hb. cbn [capture_args].
+  change (b ++ ")" ++ rest) with (b ++ String ")" rest).
+  rewrite (skip_blanks_paren b ")" rest Hb eq_refl). reflexivity.
+Qed.
+
+Theorem replace_call_zero_param_blank : forall name tmpl b1 b2,
+  wordy name -> skip_blanks b1 = "" -> skip_blanks b2 = "" ->
+  replace_call name [] tmpl (name ++ b1 ++ "(" ++ b2 ++ ")")
+  = (expand_template (S (String.length tmpl)) tmpl [] [], true).
+Proof.
+  intros name tmpl b1 b2 [Hne _] H1 H2. unfold replace_call.
+  rewrite (rca_hit_blanks _ name [] tmpl None _ b1 (b2 ++ ")" ++ "") [] "").
+  - rewrite rca_nil. cbn [fst]. rewrite app_nil_r_s. reflexivity.
+  - reflexivity.
+  - reflexivity.
+  - exact Hne.
+  - exact H1.
+  - apply capture_args_0. exact H2.
+Qed.
+Print Assumptions replace_call_zero_param_blank.
+
+(** through the whole pipeline.  BL = one blank, TB = one TAB *)
+Example blank_before_paren_example :
+  let TB := String (ascii_of_nat 9) "" in
+  cpp_output (run_cpp [] "m.c" [] ["#define add(a,b) a+b" ++ nl; "x = add (1,2);" ++ nl]) = Some ("x = 1+2;" ++ nl)
+  /\ cpp_output (run_cpp [] "m.c" [] ["#define add(a,b) a+b" ++ nl; "x = add" ++ TB ++ "(1,2);" ++ nl]) = Some ("x = 1+2;" ++ nl)
+  /\ cpp_output (run_cpp [] "m.c" [] ["#define add(a,b) a+b" ++ nl; "x = add " ++ TB ++ " (1,2);" ++ nl]) = Some ("x = 1+2;" ++ nl)
+  /\ cpp_output (run_cpp [] "m.c" [] ["#define add(a,b) a+b" ++ nl; "x = add(1,2);" ++ nl]) = Some ("x = 1+2;" ++ nl).
+Proof. vm_compute. repeat split; reflexivity. Qed.
+
+Example zero_param_blank_example :
+  let TB := String (ascii_of_nat 9) "" in
+  cpp_output (run_cpp [] "m.c" [] ["#define f() 7" ++ nl; "x = f( );" ++ nl]) = Some ("x = 7;" ++ nl)
+  /\ cpp_output (run_cpp [] "m.c" [] ["#define f() 7" ++ nl; "x = f ( );" ++ nl]) = Some ("x = 7;" ++ nl)
+  /\ cpp_output (run_cpp [] "m.c" [] ["#define f() 7" ++ nl; "x = f();" ++ nl]) = Some ("x = 7;" ++ nl)
+  /\ cpp_output (run_cpp [] "m.c" [] ["#define f() 7" ++ nl; "x = f" ++ TB ++ "(" ++ TB ++ " );" ++ nl]) = Some ("x = 7;" ++ nl).
+Proof. vm_compute. repeat split; reflexivity. Qed.
+
+(** what does NOT change: an object-like macro whose value starts with a parenthesis (on the
+    #define line a blank after the name makes the macro object-like) is replaced as a word and
+    what follows it is left alone; the name of a function-like macro that is not followed by a
+    parenthesis stays as it is; only blanks and TABs may separate the name from the parenthesis
+    (not a newline, not a comment remnant), and a macro with parameters still needs its
+    arguments *)
+Example blank_before_paren_negative :
+  cpp_output (run_cpp [] "m.c" [] ["#define A (x)" ++ nl; "A (1)" ++ nl]) = Some ("(x) (1)" ++ nl)
+  /\ cpp_output (run_cpp [] "m.c" [] ["#define add(a,b) a+b" ++ nl; "y = add + 1;" ++ nl]) = Some ("y = add + 1;" ++ nl)
+  /\ cpp_output (run_cpp [] "m.c" [] ["#define add(a,b) a+b" ++ nl; "y = add  ;" ++ nl]) = Some ("y = add  ;" ++ nl)
+  /\ replace_call "add" ["a"; "b"] "$a+$b" ("add" ++ nl ++ "(1,2)") = ("add" ++ nl ++ "(1,2)", false)
+  /\ replace_call "add" ["a"; "b"] "$a+$b" "xadd (1,2) add_ (1,2)" = ("xadd (1,2) add_ (1,2)", false)
+  /\ replace_call "f" [] "7" "f(1) f(,)" = ("f(1) f(,)", false).
+Proof. vm_compute. repeat split; reflexivity. Qed.
 
 (** * Why the hypotheses of T5/T6 are there *)
 
